@@ -374,9 +374,32 @@ def forward_substitute(stmts: List[ast.stmt], T: Translator, stop_at: Optional[a
     return T
 
 
+class _Timeout(BaseException):
+    """Not an Exception subclass: sympy swallows Exception in several simplification helpers."""
+
+
+def _limited(fn, seconds: float = 6.0):
+    """Run fn() under a wall-clock limit (the simplifier can run away on unrelated expressions).
+    Only the main thread can arm the alarm; elsewhere fn runs unbounded."""
+    import signal
+    import threading
+    if threading.current_thread() is not threading.main_thread():
+        return fn()
+
+    def handler(signum, frame):
+        raise _Timeout()
+    old = signal.signal(signal.SIGALRM, handler)
+    signal.setitimer(signal.ITIMER_REAL, seconds)
+    try:
+        return fn()
+    finally:
+        signal.setitimer(signal.ITIMER_REAL, 0)
+        signal.signal(signal.SIGALRM, old)
+
+
 def equal(a: sp.Expr, b: sp.Expr) -> bool:
-    """Algebraic identity over the reals (canonical forms).  Cheap tests first; the full
-    simplifier is only used on small differences."""
+    """Algebraic identity over the reals (canonical forms).  Cheap tests first; the full simplifier is
+    only used on small differences and under a time limit (undecided counts as not equal)."""
     try:
         if a == b:
             return True
@@ -391,20 +414,24 @@ def equal(a: sp.Expr, b: sp.Expr) -> bool:
             return False
         ops = sp.count_ops(d)
         if ops > 120:
-            e = sp.expand(d)
-            if e == 0:
-                return True
-            try:
+            def big():
+                e = sp.expand(d)
+                if e == 0:
+                    return True
                 return sp.cancel(sp.together(e)) == 0
-            except Exception:
-                return False
-        d1 = sp.simplify(d)
-        if d1 == 0:
-            return True
-        d2 = sp.simplify(sp.expand(sp.expand_trig(d)))
-        if d2 == 0:
-            return True
-        return sp.simplify(sp.expand_log(d2, force=True)) == 0
+            return bool(_limited(big))
+
+        def small():
+            d1 = sp.simplify(d)
+            if d1 == 0:
+                return True
+            d2 = sp.simplify(sp.expand(sp.expand_trig(d)))
+            if d2 == 0:
+                return True
+            return sp.simplify(sp.expand_log(d2, force=True)) == 0
+        return bool(_limited(small))
+    except _Timeout:
+        return False
     except Exception:
         return False
 
